@@ -100,7 +100,25 @@ def do(job):
     out = dict(pkg=None, err=None, stage=None)
     try:
         unit = mk_unit(job["unit"]) if job.get("unit") is not None else None
-        if job.get("pre") and unit is not None and isinstance(unit, h.Module):
+        if job.get("pre") == "failed" and unit is not None and isinstance(unit, h.Module):
+            # the unit was part of a design whose elaboration FAILED elsewhere, after the bundle passes had visited the unit
+            # (an instance array with a missing connection is only found by the post-flattening checks)
+            t = h.Module(name="PreFailTop")
+            cs = {}
+            for pn, pt in unit.ports.items():
+                cs[pn] = t.add(h.Signal(name="s_" + pn, width=pt.width))
+            for bn, bp in unit.bundle_ports.items():
+                cs[bn] = t.add(bp.of(name="b_" + bn))
+            t.add(unit(**cs), name="u")
+            t.z = h.Signal()
+            t.add(h.InstanceArray(of=h.R(r=1), n=2, name="bad")(p=t.z))
+            try:
+                h.elaborate(t)
+                raise RuntimeError("the scratch design was expected to fail")
+            except RuntimeError as e:
+                if "expected to fail" in str(e):
+                    raise
+        elif job.get("pre") and unit is not None and isinstance(unit, h.Module):
             h.to_proto(unit)
         conns = None
         if job.get("conns") is not None:
